@@ -43,13 +43,53 @@ def aliasMangle (tags : List String) (h : Hdr) (t : Ty) : Outcome (List FT) :=
     let aTags := tagSet aTags "dialsdesc" (desc ++ " (alias of " ++ " ".intercalate sorted ++ ")")
     .ok [({ h with tags := srcTags }, t), ({ h with name := h.name ++ aliasFieldSuffix, tags := aTags }, t)]
 
-def aliasUnmangle (h : Hdr) (_ : Ty) (fvs : List (FT × Val)) : Outcome Val :=
+mutual
+/-- transform/alias_mangler.go isUnset: IsNil for the nillable kinds, IsZero for the others (the fields of
+structs held in collections are not pointerified).  Floats and complex numbers are carried as their
+text (`"0"`, `"(0+0i)"` are the zero values' canonical texts); a text-unmarshalable struct's zero
+value is `nilv`. -/
+def isUnsetAt : Ty → Val → Bool
+  | _, .nilv => true
+  | .basic .bool _, .b x => !x
+  | .basic .str _, .s x => x == ""
+  | .basic (.int _) _, .i x => x == 0
+  | .basic .f32 _, .s x => x == "0"
+  | .basic .f64 _, .s x => x == "0"
+  | .basic .c64 _, .s x => x == "(0+0i)"
+  | .basic .c128 _, .s x => x == "(0+0i)"
+  | .dur, .i x => x == 0
+  | .pdur, .i x => x == 0
+  | .array _ e, .list vs => listUnsetAt e vs
+  | .struct fs, .struct vs => fieldsUnsetAt fs vs
+  | _, _ => false
+def listUnsetAt : Ty → List Val → Bool
+  | _, [] => true
+  | e, v :: vs => isUnsetAt e v && listUnsetAt e vs
+def fieldsUnsetAt : Fields → List Val → Bool
+  | .cons _ _ _ t r, v :: vs => isUnsetAt t v && fieldsUnsetAt r vs
+  | _, _ => true
+end
+
+@[simp] theorem isUnsetAt_nilv (t : Ty) : isUnsetAt t .nilv = true := by
+  unfold isUnsetAt; rfl
+
+/-- on the nillable kinds (every field of a pointerified config type) "unset" is "nil" -/
+theorem isUnsetAt_ptr (e : Ty) (v : Val) : isUnsetAt (.ptr e) v = v.isNil := by
+  cases v <;> simp [isUnsetAt, Val.isNil]
+theorem isUnsetAt_slice (e : Ty) (v : Val) : isUnsetAt (.slice e) v = v.isNil := by
+  cases v <;> simp [isUnsetAt, Val.isNil]
+theorem isUnsetAt_map (k e : Ty) (v : Val) : isUnsetAt (.map k e) v = v.isNil := by
+  cases v <;> simp [isUnsetAt, Val.isNil]
+theorem isUnsetAt_set (k : Ty) (v : Val) : isUnsetAt (.set k) v = v.isNil := by
+  cases v <;> simp [isUnsetAt, Val.isNil]
+
+def aliasUnmangle (h : Hdr) (t : Ty) (fvs : List (FT × Val)) : Outcome Val :=
   match fvs with
   | [(_, v)] => .ok v
   | [(_, v1), (_, v2)] =>
-    if !v1.isNil && !v2.isNil then .err ("both alias and original set for field " ++ h.name)
-    else if !v1.isNil then .ok v1
-    else if !v2.isNil then .ok v2
+    if !isUnsetAt t v1 && !isUnsetAt t v2 then .err ("both alias and original set for field " ++ h.name)
+    else if !isUnsetAt t v1 then .ok v1
+    else if !isUnsetAt t v2 then .ok v2
     else .ok v1
   | _ => .err "expected 1 or 2 tuples"
 
